@@ -34,7 +34,7 @@ Proof.
       destruct (second_is_slash chunk).
       + destruct st as [[g cc]|].
         * destruct (is_block_name _); [constructor; [exact I|constructor; [exact E|apply IH]]|].
-          destruct (index_of _ cc 0); apply IH.
+          destruct (index_of _ cc 0); [|destruct (mem_str _ Tables.empty_tags)]; apply IH.
         * constructor; [exact E|apply IH].
       + destruct (is_block_name _).
         * destruct st as [[g cc]|]; [constructor; [exact I|constructor; [exact E|apply IH]]|constructor; [exact E|apply IH]].
